@@ -1,6 +1,6 @@
 (* C07 — every received request gets exactly one answer of the right kind; answers are never answered
    Statements copied from the proof files; each is closed by `exact`. *)
-From DV Require Prelude.Base Model.Ids Proofs.IdsP Model.Node Proofs.NodeB.
+From DV Require Prelude.Base Model.Ids Proofs.IdsP Model.Node Proofs.NodeA Proofs.NodeB Proofs.NodeC Proofs.NodeD Proofs.NodeF Proofs.NodeE.
 From Coq Require String List Lia Bool Arith ZArith.
 
 Module FromNodeB.
@@ -61,6 +61,55 @@ Theorem C07_delivered_answered_only_on_failure n cid m i m' cid' a :
 Proof. exact (@NodeB.C07_delivered_answered_only_on_failure n cid m i m' cid' a). Qed.
 End FromNodeB.
 
+Module FromNodeE.
+Import DV.Prelude.Base DV.Model.Node DV.Proofs.NodeC DV.Proofs.NodeF DV.Proofs.NodeE.
+Import Coq.micromega.Lia.
+Local Open Scope Z_scope.
+
+(* A: a history without requests read and without application answers transmits no answer *)
+Theorem C07_history_no_answer_to_answer n0 evs :
+  (forall d i b, ~ List.In (d, EAppAnswer i b) evs) ->
+  (forall d cid ms m, List.In (d, ERecv cid ms) evs -> List.In m ms -> m_req m = false) ->
+  forall e outs cid a, List.In (e, outs) (trace n0 evs) -> List.In (OQueue cid a) outs -> o_req a = true.
+Proof. exact (@NodeE.C07_history_no_answer_to_answer n0 evs). Qed.
+
+(* B: node-generated answers are produced in the very step that reads the request, on the same
+   connection, with the request's command, application id and identifiers (any history) *)
+Theorem C07_history_node_answers n0 evs e outs cid a :
+  List.In (e, outs) (trace n0 evs) -> (forall i b, e <> EAppAnswer i b) ->
+  List.In (OQueue cid a) outs -> o_req a = false ->
+  exists ms, e = ERecv cid ms /\ exists m, List.In m ms /\ m_req m = true /\
+     o_cmd a = m_cmd m /\ o_app a = m_app m /\ o_hbh a = m_hbh m /\ o_e2e a = m_e2e m.
+Proof. exact (@NodeE.C07_history_node_answers n0 evs e outs cid a). Qed.
+
+(* C: under wf_init_g + ce_guard (= reach_g of NodeD: the hypotheses of C13_one_conn_per_peer, reach_c, and
+   of C19_waiting_hosts, reach_nc, together), an answer that an application hands to the node goes out,
+   unchanged, on the very connection from which a request with its (hop-by-hop, end-to-end) pair was read
+   and delivered to an application earlier in the history *)
+Theorem C07_history_app_answers n0 evs1 ds i a evs2 cid a' :
+  NodeD.wf_init_g n0 -> NodeD.ce_guard n0 (evs1 ++ (ds, EAppAnswer i a) :: evs2)%list ->
+  List.In (OQueue cid a') (snd (step (fst (run n0 evs1)) ds (EAppAnswer i a))) -> o_req a' = false ->
+  a' = a /\
+  exists ms outs j m,
+    List.In (ERecv cid ms, outs) (trace n0 evs1) /\ List.In m ms /\ m_req m = true /\
+    m_hbh m = o_hbh a /\ m_e2e m = o_e2e a /\ List.In (ODeliver j m) outs.
+Proof. exact (@NodeE.C07_history_app_answers n0 evs1 ds i a evs2 cid a'). Qed.
+
+(* D: under the guard of C, on every connection and for every (hop-by-hop, end-to-end) pair the node hands
+   out no more answers than it has read requests with that pair from that connection *)
+Theorem C07_history_answers_le_requests n0 evs cid k :
+  NodeD.wf_init_g n0 -> NodeD.ce_guard n0 evs ->
+  (qans cid k (trace n0 evs) <= qreq cid k (trace n0 evs))%nat.
+Proof. exact (@NodeE.C07_history_answers_le_requests n0 evs cid k). Qed.
+
+(* D: when the requests read from a connection carry pairwise distinct (hop-by-hop, end-to-end) pairs, the
+   node hands that connection at most one answer per pair in the whole history *)
+Theorem C07_history_at_most_once n0 evs cid k :
+  NodeD.wf_init_g n0 -> NodeD.ce_guard n0 evs -> List.NoDup (req_keys_on cid evs) ->
+  (qans cid k (trace n0 evs) <= 1)%nat.
+Proof. exact (@NodeE.C07_history_at_most_once n0 evs cid k). Qed.
+End FromNodeE.
+
 Print Assumptions FromNodeB.send_message_out.
 Print Assumptions FromNodeB.C07_dispatch_answers.
 Print Assumptions FromNodeB.C07_no_answer_to_answer.
@@ -68,3 +117,8 @@ Print Assumptions FromNodeB.C07_answers_only_from.
 Print Assumptions FromNodeB.C07_dispatch_all_answers.
 Print Assumptions FromNodeB.C07_delivered_not_answered.
 Print Assumptions FromNodeB.C07_delivered_answered_only_on_failure.
+Print Assumptions FromNodeE.C07_history_no_answer_to_answer.
+Print Assumptions FromNodeE.C07_history_node_answers.
+Print Assumptions FromNodeE.C07_history_app_answers.
+Print Assumptions FromNodeE.C07_history_answers_le_requests.
+Print Assumptions FromNodeE.C07_history_at_most_once.
